@@ -42,7 +42,7 @@ def _cex(mdl):
 
 
 
-def check_events(M, C, sizes, tails, candidates, base_case, pfx="anyL", domain=None, returned=None, full_box=None, extra_prem=None):
+def check_events(M, C, sizes, tails, candidates, base_case, pfx="anyL", domain=None, returned=None, full_box=None, extra_prem=None, tid=0, domains=None):
     """verification conditions for the recorded run.
        candidates(idx, tail) -> list of (description, rhs Sym, [Affs that must be >= 0])  specification relations that may define idx
        base_case(idx, tail)  -> Sym or None   (elements the specification gives in closed form / by a callee's contract)
@@ -52,12 +52,15 @@ def check_events(M, C, sizes, tails, candidates, base_case, pfx="anyL", domain=N
 
     from engine import subst
 
-    writes = [e for e in C.events if e["kind"] == "write"]
-    reads = [e for e in C.events if e["kind"] == "read"]
+    allwrites = [e for e in C.events if e["kind"] == "write"]
+    writes = [e for e in allwrites if e.get("tid", 0) == tid]
+    reads = [e for e in C.events if e["kind"] == "read" and e.get("wtid", 0) == tid]
     M.true(pfx + "/events", len(writes) >= 2 and len(reads) >= 2, "%d slice assignments, %d table reads recorded" % (len(writes), len(reads)))
     env, _cache = G._z3env()
     prem = _sizes_premise(env, sizes) + list(extra_prem(env) if extra_prem else [])
-    dom = domain or (lambda env_, k, j, i: z3.BoolVal(True))
+    dom = domain or (lambda env_, *ix: z3.BoolVal(True))
+    doms = dict(domains or {})
+    doms.setdefault(tid, dom)
 
     for n, w in enumerate(writes):
         name = "%s/stmt%02d[%s]" % (pfx, n, ",".join(repr(e) for e in w["idx"]))
@@ -77,6 +80,10 @@ def check_events(M, C, sizes, tails, candidates, base_case, pfx="anyL", domain=N
             inr = z3.And([ra.lo.z3(env) + pv < ub.z3(env) for ub in ra.ubs])
             st, mdl = G.check_valid(prem + [G._cons_z3(G.loop_cons(w["loops"]), env), pv >= 0], inl == inr)
             M._rec(name + "/aligned-slices-equal-length", st, "z3-lia", 0.0, detail=mdl or "", cex=_cex(mdl))
+        for ax in w.get("len1", []):
+            one = z3.And([ax.lo.z3(env) < ub.z3(env) for ub in ax.ubs] + [z3.Not(z3.And([ax.lo.z3(env) + 1 < ub.z3(env) for ub in ax.ubs]))])
+            st, mdl = G.check_valid(prem + [G._cons_z3(G.loop_cons(w["loops"]), env)], one)
+            M._rec(name + "/broadcast-axis-has-exactly-one-element", st, "z3-lia", 0.0, detail=mdl or "", cex=_cex(mdl))
         # generic positions / loop variables that the constraints pin to one value (a slice such as 1:2 has at most one
         # element): substitute them, in the index and in the value
         forced = {}
@@ -90,6 +97,15 @@ def check_events(M, C, sizes, tails, candidates, base_case, pfx="anyL", domain=N
 
         Cx = alg.ctx()
         senv = {Cx.byname[nm]: alg.Value.const(c) for nm, c in forced.items() if nm in Cx.byname}
+        if forced:
+            # atoms whose index mentions a pinned variable are the atoms at the pinned index
+            for key, (symb, aidx, atail) in list(C.atoms.items()):
+                if any(nm in forced for e in aidx for nm in e.t):
+                    new = C.named_atom(key[0], *(tuple(pin(e) for e in aidx) + (atail,)))
+                    vs = S.expand(symb)
+                    (mono,) = vs.n.keys()
+                    ((sidx, _e),) = Cx.items(mono)
+                    senv[sidx] = S.expand(new)
         idx = tuple(pin(e) for e in w["idx"])
         for tail in tails:
             got = w["value"][(0,) * (w["value"].ndim - len(tail)) + tail]
@@ -114,7 +130,8 @@ def check_events(M, C, sizes, tails, candidates, base_case, pfx="anyL", domain=N
     def written_before(r, rprem, label):
         target = [e.z3(env) for e in r["idx"]]
         alts = []
-        for w in writes:
+        rdom = doms.get(r.get("tid", tid), dom)
+        for w in [x for x in allwrites if x.get("tid", 0) == r.get("tid", tid)]:
             rl = {l[0]: l for l in r["loops"]}
             common = [l for l in w["loops"] if l[0] in rl]
             wt = None
@@ -123,7 +140,7 @@ def check_events(M, C, sizes, tails, candidates, base_case, pfx="anyL", domain=N
                 alts.append(G.region_formula(w, target, env, sizes, order=(lid, tname, r["seq"])))
             elif r["seq"] is None or w["seq"] < r["seq"]:
                 alts.append(G.region_formula(w, target, env, sizes))
-        st, mdl = G.check_valid(rprem, z3.And(z3.Or(alts) if alts else z3.BoolVal(False), dom(env, *target)), timeout_ms=60000)
+        st, mdl = G.check_valid(rprem, z3.And(z3.Or(alts) if alts else z3.BoolVal(False), rdom(env, *target)), timeout_ms=60000)
         M._rec(label, st, "z3-lia", 0.0, detail=mdl or "", cex=_cex(mdl))
 
     # every element read (for a target the specification speaks about) was written earlier and lies in the domain
@@ -544,3 +561,228 @@ class OneElecVerticalAnyL:
         ret = dict(kind="read", idx=(G.Aff.of(0), G.Aff.var("rx"), G.Aff.var("ry"), G.Aff.var("rz")), loops=[], seq=None, bounds=[],
                    cons=[("ge", G.Aff.var(v), G.Aff.of(0)) for v in ("rx", "ry", "rz")] + [("lt", G.Aff.var("rx") + G.Aff.var("ry") + G.Aff.var("rz"), la + lb + 1)])
         check_events(M, C, sizes, tails, candidates, base_case, pfx=pfx, domain=domain, returned=[ret])
+
+
+class TwoElecRecursionsAnyL:
+    """_compute_two_elec_integrals, vertical and electron-transfer stages (everything before the contraction over the
+    primitives), for ALL l_a, l_b, l_c, l_d >= 0 that are not all zero, and ANY function F_m(T) used as the Boys function:
+
+      vertical table   V[m, a]:   V[m, 0]       = 2 pi^(5/2) / (zeta eta sqrt(zeta + eta)) F_m(rho |PQ|^2) e^(-mu_ab |AB|^2) e^(-mu_cd |CD|^2)
+                                  V[m, a + 1_i] = PA_i V[m, a] - (rho/zeta) PQ_i V[m+1, a]
+                                                  + a_i / (2 zeta) (V[m, a - 1_i] - (rho/zeta) V[m+1, a - 1_i])
+                       on the domain  m + |a| <= L = l_a + l_b + l_c + l_d
+
+      transfer table   E[c, a]:   E[0, a]       = V[0, a]
+                                  E[c + 1_i, a] = (QC_i + (zeta/eta) PA_i) E[c, a] + a_i / (2 eta) E[c, a - 1_i]
+                                                  + c_i / (2 eta) E[c - 1_i, a] - (zeta/eta) E[c, a + 1_i]
+                       on the domain  |c| + |a| <= L,  c_i <= l_c + l_d
+
+    (zeta = a + b, eta = c + d, rho = zeta eta / (zeta + eta), P, Q the weighted centres).  The part that goes on to the
+    contraction and the horizontal recursions, E[c, a] with |c| <= l_c + l_d and |a| <= l_a + l_b, has been written.  The later
+    stages (where l / 2 appears as an exponent) are covered per shape only (contracts.coulomb:TwoElecKernel)."""
+
+    function = "gbasis.integrals._two_elec_int._compute_two_elec_integrals (vertical + electron-transfer recursions; any angular momenta)"
+
+    def shapes(self, tier):
+        return [dict(K=[2, 1, 1, 1])]
+
+    def native(self, shape, M):
+        from .coulomb import TwoElecKernel
+
+        def ext(name, default):
+            try:
+                return max(0, min(2, int(M.env[name])))
+            except Exception:
+                return default
+
+        ls = [ext("la", 1), ext("lb", 0), ext("lc", 1), ext("ld", 0)]
+        if sum(ls) == 0:
+            ls[0] = 1
+        while sum(ls) > 3:
+            ls[ls.index(max(ls))] -= 1
+        before = len(M.results)
+        wanted, M.wanted = M.wanted, None
+        name = wanted or "anyLeri/native-kernel-equals-specification"
+        try:
+            TwoElecKernel().run(dict(l=ls, K=[1, 1, 1, 1], M=[1, 1, 1, 1]), M)
+        except Exception as e:  # noqa
+            M.wanted = wanted
+            del M.results[before:]
+            M.true(name, False, "l = %s: the native kernel raised %s: %s" % (ls, type(e).__name__, e))
+            return
+        finally:
+            M.wanted = wanted
+        new = M.results[before:]
+        del M.results[before:]
+        bad = []
+        for r in new:
+            if r["status"] == "failed":
+                bad.append(r["name"])
+            elif r["status"] == "value":
+                from engine import runner
+
+                g, e = runner._parse_num(r["got"]), runner._parse_num(r["exp"])
+                sc = abs(runner._parse_num(r["scale"])) if r.get("scale") is not None else max(abs(e), abs(g), 1)
+                if not (abs(g - e) <= 1e-6 * sc + 1e-280):
+                    bad.append("%s: %s vs %s" % (r["name"], r["got"], r["exp"]))
+        M.true(name, not bad, "l = %s: %d of %d elements of the native kernel differ from the specification; first: %s" % (ls, len(bad), len(new), bad[:2]))
+
+    def run(self, shape, M):
+        if not M.symbolic:
+            return self.native(shape, M)
+        import z3
+
+        mod = M.mods["gbasis.integrals._two_elec_int"]
+        Ka, Kb, Kc, Kd = shape["K"]
+        cen = [M.vec(n, 3) for n in "ABCD"]
+        ex = [M.vec(n, k, "pos") for n, k in zip("abcd", (Ka, Kb, Kc, Kd))]
+        co = [M.vec("d" + n, (k, 1)) for n, k in zip("abcd", (Ka, Kb, Kc, Kd))]
+        sizes = ["la", "lb", "lc", "ld"]
+        ls = [G.Aff.var(n) for n in sizes]
+        L = ls[0] + ls[1] + ls[2] + ls[3]
+        C = G.Ctx(sizes)
+        G.CTX[0] = C
+        seen = {}
+
+        def boys(orders, T):
+            seen["boys"] = (orders, T)
+            Tarr = np.asarray(T, dtype=object)
+            if not isinstance(orders, G.GIota) or orders.axis != 0 or orders.ndim != Tarr.ndim or Tarr.shape[0] != 1:
+                raise alg.Undecided("Boys function called with orders / argument of an unexpected form")
+            slot = Tarr.ndim
+            data = np.empty(Tarr.shape, dtype=object)
+            for pos in itertools.product(*[range(n) for n in Tarr.shape]):
+                data[pos] = C.named_atom("F", G.Aff.var("p%d" % slot), pos[1:])
+            return G.GVal(data, {slot: [G.SymAxis(G.Aff.of(0), [orders.D])]}, [])
+
+        stage_end = None
+        comps = np.array([[0, 0, 0]])
+        try:
+            with bind.patched((mod, "np", G.GNp(mod.np)), (mod, "range", G.grange)):
+                args = [boys]
+                for i in range(4):
+                    args += [cen[i], ls[i], comps, ex[i], co[i]]
+                mod._compute_two_elec_integrals(*args)
+        except G.StageEnd as e:
+            stage_end = str(e)
+        finally:
+            G.CTX[0] = None
+        pfx = "anyLeri"
+        M.true(pfx + "/recursion-stages-completed", stage_end is not None and C.ntab == 2, "the run reaches the contraction step with two tables filled (%s)" % stage_end)
+        tails = list(itertools.product(range(Kd), range(Kb), range(Kc), range(Ka)))
+        envb, _ = G._z3env()
+        prem0 = lambda env: [env("la") + env("lb") + env("lc") + env("ld") >= 1]
+
+        def geom(tail):
+            pd, pb, pc, pa = tail
+            a, b, c, d = ex[0][pa], ex[1][pb], ex[2][pc], ex[3][pd]
+            zeta, eta = a + b, c + d
+            P = [(a * cen[0][x] + b * cen[1][x]) / zeta for x in range(3)]
+            Q = [(c * cen[2][x] + d * cen[3][x]) / eta for x in range(3)]
+            return dict(a=a, b=b, c=c, d=d, zeta=zeta, eta=eta, rho=zeta * eta / (zeta + eta), P=P, Q=Q)
+
+        bo = seen.get("boys")
+        M.true(pfx + "/pre@boys/called", bo is not None, "")
+        if bo is None:
+            return
+        st, mdl = G.check_valid(_sizes_premise(envb, sizes), bo[0].D.z3(envb) >= (L + 1).z3(envb))
+        M._rec(pfx + "/pre@boys/orders-0..L-are-requested", st, "z3-lia", 0.0, detail=mdl or "orders 0 .. %r - 1" % bo[0].D, cex=_cex(mdl))
+        Tarr = np.asarray(bo[1], dtype=object)
+        okT = Tarr.shape == (1, Kd, Kb, Kc, Ka)
+        M.true(pfx + "/pre@boys/argument-shape", okT, str(Tarr.shape))
+        if okT:
+            for tail in tails:
+                g = geom(tail)
+                pq2 = sum(((g["P"][x] - g["Q"][x]) * (g["P"][x] - g["Q"][x]) for x in range(3)), S.lift(0))
+                M.eq(pfx + "/pre@boys/argument" + str(list(tail)), Tarr[(0,) + tail], g["rho"] * pq2)
+
+        # ---- table 0: vertical recursion
+        def cand_v(idx, tail):
+            m = idx[0]
+            g = geom(tail)
+            out_ = []
+            for c in (2, 1, 0):
+                ac = idx[1 + c]
+                if ac.is_const() and ac.c == 0:
+                    continue
+                low = list(idx)
+                low[1 + c] = ac - 1
+                up = list(low)
+                up[0] = m + 1
+                PA = g["P"][c] - cen[0][c]
+                PQ = g["P"][c] - g["Q"][c]
+                r = g["rho"] / g["zeta"]
+                rhs = PA * C.atom(*(tuple(low) + (tail,))) - r * PQ * C.atom(*(tuple(up) + (tail,)))
+                coef = ac - 1
+                if not (coef.is_const() and coef.c == 0):
+                    low2, up2 = list(low), list(up)
+                    low2[1 + c] = ac - 2
+                    up2[1 + c] = ac - 2
+                    rhs = rhs + coef.to_sym() / (g["zeta"] * 2) * (C.atom(*(tuple(low2) + (tail,))) - r * C.atom(*(tuple(up2) + (tail,))))
+                out_.append(("the vertical relation raising a_%s" % "xyz"[c], rhs, [ac - 1]))
+            return out_
+
+        def base_v(idx, tail):
+            if all(e.is_const() and e.c == 0 for e in idx[1:]):
+                g = geom(tail)
+                ab2 = sum(((cen[0][x] - cen[1][x]) * (cen[0][x] - cen[1][x]) for x in range(3)), S.lift(0))
+                cd2 = sum(((cen[2][x] - cen[3][x]) * (cen[2][x] - cen[3][x]) for x in range(3)), S.lift(0))
+                SF = M.SF
+                pref = SF.pi * SF.pi * SF.sqrt(SF.pi) * 2 / (g["zeta"] * g["eta"] * SF.sqrt(g["zeta"] + g["eta"]))
+                return pref * C.named_atom("F", idx[0], tail) * SF.exp(-(g["a"] * g["b"] / g["zeta"]) * ab2) * SF.exp(-(g["c"] * g["d"] / g["eta"]) * cd2)
+            return None
+
+        def Lz(env):
+            return env("la") + env("lb") + env("lc") + env("ld")
+
+        def dom_v(env, m, ax, ay, az):
+            return z3.And(m >= 0, ax >= 0, ay >= 0, az >= 0, m + ax + ay + az <= Lz(env))
+
+        def dom_e(env, cx, cy, cz, ax, ay, az):
+            lcd = env("lc") + env("ld")
+            return z3.And(cx >= 0, cy >= 0, cz >= 0, ax >= 0, ay >= 0, az >= 0, cx + cy + cz + ax + ay + az <= Lz(env), cx <= lcd, cy <= lcd, cz <= lcd)
+
+        doms = {0: dom_v, 1: dom_e}
+        check_events(M, C, sizes, tails, cand_v, base_v, pfx=pfx + "/vertical", domain=dom_v, tid=0, domains=doms, extra_prem=prem0,
+                     returned=[dict(kind="read", tid=0, idx=(G.Aff.of(0), G.Aff.var("rx"), G.Aff.var("ry"), G.Aff.var("rz")), loops=[], seq=None, bounds=[],
+                                    cons=[("ge", G.Aff.var(v), G.Aff.of(0)) for v in ("rx", "ry", "rz")] + [("lt", G.Aff.var("rx") + G.Aff.var("ry") + G.Aff.var("rz"), L + 1)])])
+
+        # ---- table 1: electron transfer
+        def cand_e(idx, tail):
+            g = geom(tail)
+            out_ = []
+            ze = g["zeta"] / g["eta"]
+            for i in (2, 1, 0):
+                ci = idx[i]
+                if ci.is_const() and ci.c == 0:
+                    continue
+                low = list(idx)
+                low[i] = ci - 1  # E[c, a] with c = idx - 1_i
+                ai = idx[3 + i]
+                QC = g["Q"][i] - cen[2][i]
+                PA = g["P"][i] - cen[0][i]
+                rhs = (QC + ze * PA) * C.named_atom("S1", *(tuple(low) + (tail,)))
+                if not (ai.is_const() and ai.c == 0):
+                    t = list(low)
+                    t[3 + i] = ai - 1
+                    rhs = rhs + ai.to_sym() / (g["eta"] * 2) * C.named_atom("S1", *(tuple(t) + (tail,)))
+                cm = ci - 1
+                if not (cm.is_const() and cm.c == 0):
+                    t = list(low)
+                    t[i] = ci - 2
+                    rhs = rhs + cm.to_sym() / (g["eta"] * 2) * C.named_atom("S1", *(tuple(t) + (tail,)))
+                t = list(low)
+                t[3 + i] = ai + 1
+                rhs = rhs - ze * C.named_atom("S1", *(tuple(t) + (tail,)))
+                out_.append(("the electron-transfer relation raising c_%s" % "xyz"[i], rhs, [ci - 1]))
+            return out_
+
+        def base_e(idx, tail):
+            if all(e.is_const() and e.c == 0 for e in idx[:3]):
+                return C.named_atom("S", G.Aff.of(0), idx[3], idx[4], idx[5], tail)
+            return None
+
+        rv = [G.Aff.var(v) for v in ("rcx", "rcy", "rcz", "rax", "ray", "raz")]
+        ret_e = dict(kind="read", tid=1, idx=tuple(rv), loops=[], seq=None, bounds=[],
+                     cons=[("ge", v, G.Aff.of(0)) for v in rv] + [("lt", rv[0] + rv[1] + rv[2], ls[2] + ls[3] + 1), ("lt", rv[3] + rv[4] + rv[5], ls[0] + ls[1] + 1)])
+        check_events(M, C, sizes, tails, cand_e, base_e, pfx=pfx + "/transfer", domain=dom_e, tid=1, domains=doms, extra_prem=prem0, returned=[ret_e])
